@@ -408,13 +408,55 @@ func funcName(fd *ast.FuncDecl) string {
 	return fd.Name.Name
 }
 
-func instrumentFile(in, out string, fsRewrite, postcall bool) (sites []string, changed bool, err error) {
+// netSeams: socket, interface, terminal-input and sub-process calls of the
+// application packages are textually redirected to the simulator's seams (same
+// line, so positions stay put); see sim/verifsim/hostnet.go.
+var netSeams = [][2]string{
+	{"*net.UDPConn", "verifsim.UDPConn"},
+	{"net.ListenUDP(", "verifsim.ListenUDP("},
+	{"net.Interfaces()", "verifsim.Interfaces()"},
+	{"os.Stdin", "verifsim.Stdin()"},
+	{"exec.Command(", "verifsim.ExecCommand("},
+}
+
+func instrumentFile(in, out string, fsRewrite, postcall, netRewrite bool) (sites []string, changed bool, err error) {
 	fset := token.NewFileSet()
-	f, err := parser.ParseFile(fset, in, nil, parser.ParseComments)
+	var src any
+	seamed := false
+	if netRewrite {
+		b, rerr := os.ReadFile(in)
+		if rerr != nil {
+			return nil, false, rerr
+		}
+		txt := string(b)
+		for _, kv := range netSeams {
+			if strings.Contains(txt, kv[0]) {
+				txt = strings.ReplaceAll(txt, kv[0], kv[1])
+				seamed = true
+			}
+		}
+		src = txt
+	}
+	f, err := parser.ParseFile(fset, in, src, parser.ParseComments)
 	if err != nil {
 		return nil, false, err
 	}
 	r := &rewriter{fset: fset, file: filepath.Base(in), ord: map[string]int{}, fsRewrite: fsRewrite, postcall: postcall}
+	r.used = seamed
+	keep := ""
+	if seamed {
+		for _, imp := range f.Imports {
+			if imp.Name != nil {
+				continue
+			}
+			switch imp.Path.Value {
+			case `"net"`:
+				keep += "\nvar _ net.Addr // keep the import used after the seams were put in\n"
+			case `"os/exec"`:
+				keep += "\nvar _ = exec.ErrNotFound\n"
+			}
+		}
+	}
 	for _, imp := range f.Imports {
 		if imp.Path.Value == `"os"` && imp.Name == nil {
 			r.hasOS = true
@@ -444,6 +486,7 @@ func instrumentFile(in, out string, fsRewrite, postcall bool) (sites []string, c
 	if r.hasOS {
 		buf.WriteString("\nvar _ os.FileMode // keep the os import used after interposition\n")
 	}
+	buf.WriteString(keep)
 	if err := os.MkdirAll(filepath.Dir(out), 0o755); err != nil {
 		return nil, false, err
 	}
@@ -462,15 +505,18 @@ func main() {
 	replace := map[string]string{}
 	var allSites []string
 	for _, spec := range os.Args[3:] {
-		fsRewrite, postcall := false, false
-		pkg := spec
-		if strings.HasSuffix(spec, ":fs") {
-			fsRewrite = true
-			pkg = strings.TrimSuffix(spec, ":fs")
-		}
-		if strings.HasSuffix(spec, ":postcall") {
-			postcall = true
-			pkg = strings.TrimSuffix(spec, ":postcall")
+		fsRewrite, postcall, netRewrite := false, false, false
+		parts := strings.Split(spec, ":")
+		pkg := parts[0]
+		for _, fl := range parts[1:] {
+			switch fl {
+			case "fs":
+				fsRewrite = true
+			case "postcall":
+				postcall = true
+			case "net":
+				netRewrite = true
+			}
 		}
 		ents, err := os.ReadDir(filepath.Join(repo, pkg))
 		if err != nil {
@@ -484,7 +530,7 @@ func main() {
 			}
 			in := filepath.Join(repo, pkg, n)
 			out := filepath.Join(outdir, pkg, n)
-			sites, changed, err := instrumentFile(in, out, fsRewrite, postcall)
+			sites, changed, err := instrumentFile(in, out, fsRewrite, postcall, netRewrite)
 			if err != nil {
 				fmt.Fprintf(os.Stderr, "instrument: %s: %v\n", in, err)
 				os.Exit(2)
